@@ -117,6 +117,42 @@ def unit_expr(clsname, field):
     return Unit('expr/%s/%s' % (clsname, field), run, funcs=[OP + clsname + '.adjoint'], config={'class': clsname, 'field': field})
 
 
+def unit_mixed(clsname):
+    """vector multiplication of an operator from a REAL space into a COMPLEX space (left: multiplier in the complex range; right: real
+    multiplier in the domain): the adjoint identity in the sense of mixed real / complex spaces, Re <A x, y> == <x, A* y>.  The multiplier
+    stays inside the inner products (conjugate-multiplication law), no complex scalar is moved across the adjoint law."""
+    def run(ctx):
+        I = ctx.I
+
+        def path(st):
+            setup(st)
+            fr = ip.Frame(st)
+            X = makers.tspace(I, st, 'X', 'real')
+            Y = makers.tspace(I, st, 'Y', 'complex')
+            A = AbsOp(I, 'A', X, Y, True)
+            A.op.opsym.dom_field, A.op.opsym.ran_field = 'real', 'complex'
+            vec = Y.element('vec') if clsname == 'OperatorLeftVectorMult' else X.element('vec')
+            inst = I.call(I.get_class(OP + clsname), [A.op, vec], {}, fr)
+            try:
+                adj = get(I, fr, inst, 'adjoint')
+            except ip.PyRaise as e:
+                return ('raise', e.exc)
+            return ('ok', (inst, adj, X, Y, fr))
+        info = {'class': clsname, 'field': 'real->complex'}
+        for st, (status, r) in ctx.explore(path):
+            if status == 'raise':
+                ctx.fail(st, 'no_raise', 'adjoint raises %s' % lib.exc_desc(r), info)
+                continue
+            inst, adj, X, Y, fr = r
+            same = lambda a, b: I.truth(I.py_eq(a, b, fr), fr)
+            ctx.prove(st, 'adjoint.domain == range, adjoint.range == domain', same(get(I, fr, adj, 'domain'), Y.space) and same(get(I, fr, adj, 'range'), X.space), info)
+            x, y = VVar('x', 'real'), VVar('y', 'complex')
+            lhs = inner(I, fr, Y.space, sem(I, fr, inst, x), y)
+            rhs = inner(I, fr, X.space, x, sem(I, fr, adj, y))
+            ctx.prove(st, 'Re <A x, y> == Re <x, A* y> for all x, y', core.sc_eq(core._sc(lhs).real, core._sc(rhs).real), info)
+    return Unit('expr-mixed/%s/real-to-complex' % clsname, run, funcs=[OP + clsname + '.adjoint'], config={'class': clsname, 'field': 'real->complex'})
+
+
 def check_adjoint(ctx, st, I, fr, inst, adj, domb, ranb, field, info, realpart=False):
     low = st.lower
     same = lambda a, b: I.truth(I.py_eq(a, b, fr), fr)
@@ -235,6 +271,8 @@ def units(tier, seed):
             us.append(unit_expr(c, field))
         for c, v in DOP_ADJ:
             us.append(unit_dop(c, v, field))
+    for c in ('OperatorLeftVectorMult', 'OperatorRightVectorMult'):
+        us.append(unit_mixed(c))
     us.append(unit_canary())
     return us
 
